@@ -34,3 +34,13 @@ Theorem C04_js_independent_of_earlier_generation :
   forall ml n ind fm, gen_js (Model.LingoMut.mutg ml n) ind fm = gen_js n ind fm.
 Proof. exact PJ_all. Qed.
 Print Assumptions C04_js_independent_of_earlier_generation.
+
+(* The JavaScript tree denotes the source expression: reading it back through the inverse of the fixed
+   correspondences (infix operators, method-style operators, sprite(...) forms, -() / !(), _global. / owner.
+   prefixes, symbol(), calls, list() / propList()) yields the source expression with its names looked up -
+   the same operators, operand order, variable kinds (variable / global / property of an owner / this),
+   literals and argument order.  The operator correspondence is injective (19 operators, by computation). *)
+Theorem C04_js_denotes_the_expression :
+  forall fm en e, read_js (to_js fm en e) = Some (name_e fm en e).
+Proof. exact read_to_js. Qed.
+Print Assumptions C04_js_denotes_the_expression.
